@@ -23,6 +23,8 @@ def run(run, h):
     batch = Batch("C16")
     ns = (1, 2, 3, 5)
     S, M = samples(h, pts, rng, ns)
+    if "_stopped" in S:
+        run.check_corr("corr.C16.honest_flows_complete_as_in_the_model", False, {"stopped": S.pop("_stopped")})
     T = type_table(ns)
     w = Harness(h.binary, limit_as=LIMIT)
     names = [n for n in T if n in S]
@@ -57,6 +59,13 @@ def run(run, h):
         atoms = offs if (run.tier == "thorough" or len(offs) <= 10) else rng.sample(offs, 10)
         for o, wd, kind, fl in atoms:
             inputs.append(("random_atom", base[:2 * o] + rng.randbytes(wd).hex() + base[2 * (o + wd):]))
+        for o, wd, kind, fl in offs:
+            if kind == "u8":      # one-byte counters (the index of a revocation pair) at the top of their range
+                for v in (255, 254, 253, 128):
+                    inputs.append(("counter=%d" % v, base[:2 * o] + "%02x" % v + base[2 * (o + 1):]))
+                    # ... also over a fresh secret, so that the digest at that index is an arbitrary one
+                    if o >= 32:
+                        inputs.append(("counter=%d+secret" % v, base[:2 * (o - 32)] + sc(rand_nz(rng)) + "%02x" % v + base[2 * (o + 1):]))
         for ln in (0, 1, 7, 8, 9, 47, 48, total // 2, total, total + 1):
             inputs.append(("random", rng.randbytes(ln).hex()))
         t1, t2 = point_tables(h, [base] + [m for _, m in inputs], [layout] * (len(inputs) + 1)) if coq else ({}, {})
